@@ -10,7 +10,7 @@ Extraction Language OCaml.
 Extraction "model.ml"
   all_opcodes code of_code args is_commutative is_idempotent
   init_arena mk_const mk_nullary mk_var mk_unary mk_bin mk_remap mk_apply
-  flags_of flatten optimized optimized_helper tree_eq
+  flags_of flatten optimized optimized_full optimized_helper lvl_fuel bnd_of tree_eq
   walk mk_deck init_slots set_point eval_tape tape_value
   tape_push keep_point keep_interval
   serialize deserialize
